@@ -61,6 +61,8 @@ class Explorer:
         self.path_assumptions = []
         self.path_data = {}
         self.known = {}
+        self.branch_memo = {}
+        self.char_sets = {}
         self._capture = None
 
     # -- solver access
@@ -139,6 +141,9 @@ class Explorer:
             self._capture.append(cond)
             return True
         raw = cond
+        memo = self.branch_memo.get(raw.get_id())
+        if memo is not None:
+            return memo[1]      # same condition already decided on this path
         sk = _SIMP_MEMO.get(raw.get_id())
         if sk is None:
             if len(_SIMP_MEMO) > 400000:
@@ -169,12 +174,14 @@ class Explorer:
         if d >= 2:
             self._learn(raw, d == 3)
             self._learn(cond, d == 3)
+            self.branch_memo[raw.get_id()] = (raw, d == 3)
             return d == 3
         c = cond if d else z3.Not(cond)
         self.solver.add(c)
         self.path_assumptions.append(c)
         self._learn(raw, bool(d))
         self._learn(cond, bool(d))
+        self.branch_memo[raw.get_id()] = (raw, bool(d))
         return bool(d)
 
     # -- constant propagation: characters pinned by the path condition
@@ -283,6 +290,8 @@ class Explorer:
                 self.path_assumptions = []
                 self.path_data = {}
                 self.known = {}
+                self.branch_memo = {}
+                self.char_sets = {}
                 self.solver.push()
                 for r in GLOBAL_RESETTERS + self.resetters:
                     r()
@@ -341,8 +350,23 @@ def _triage_exception(e):
 
 
 # --------------------------------------------------------------------------- helpers
+_INSET_MEMO = {}
+
+
 def in_set_expr(c, s):
     """z3 Bool: 8-bit c is a member of the set of code points s (range-compressed)."""
+    if type(s) is not frozenset:
+        s = frozenset(s)
+    key = (c.get_id(), s)
+    r = _INSET_MEMO.get(key)
+    if r is None:
+        if len(_INSET_MEMO) > 300000:
+            _INSET_MEMO.clear()
+        r = _INSET_MEMO[key] = (_in_set_expr(c, s), c)
+    return r[0]
+
+
+def _in_set_expr(c, s):
     if not s:
         return z3.BoolVal(False)
     xs = sorted(s)
@@ -364,17 +388,29 @@ def in_set_expr(c, s):
 CHAR_SET = {}
 
 
-def register_char_set(c, values):
+def register_char_set(c, values, scoped=False):
+    """values: the only code points c can take.  scoped=True: a fact about a *variable* that holds on the current path
+    only (an assumption of the harness); otherwise a structural fact about the term that holds universally."""
     if not isinstance(c, int) and not isinstance(c, Atom):
-        CHAR_SET[c.get_id()] = (c, frozenset(values))
+        if scoped:
+            EX.char_sets[c.get_id()] = (c, frozenset(values))
+        else:
+            CHAR_SET[c.get_id()] = (c, frozenset(values))
     return c
+
+
+def _char_set_of(c):
+    cs = CHAR_SET.get(c.get_id())
+    if cs is None and EX is not None:
+        cs = EX.char_sets.get(c.get_id())
+    return cs
 
 
 def char_in_expr(c, s):
     """z3 Bool for 'c in s' using the value-set table when it decides the question"""
     if isinstance(c, int):
         return z3.BoolVal(c in s)
-    cs = CHAR_SET.get(c.get_id())
+    cs = _char_set_of(c)
     if cs is not None:
         if cs[1] <= s:
             return z3.BoolVal(True)
@@ -389,7 +425,7 @@ def char_in(c, s):
         return c in s
     if isinstance(c, Atom):
         raise EngineError("character test on a rendered symbolic value")
-    cs = CHAR_SET.get(c.get_id())
+    cs = _char_set_of(c)
     if cs is not None:
         if cs[1] <= s:
             return True
